@@ -5,6 +5,7 @@ UNITS = {
     "dual_core": {"rlimit": 30},
     "dual_ops": {"rlimit": 50},
     "curves": {"rlimit": 50},
+    "splines": {"rlimit": 50},
 }
 
 COMMON_ASSUMPTIONS = [
